@@ -1,5 +1,7 @@
 import os, re
 
+import verif
+
 THEOREMS = {
     "Dawgs.Props.C18": [
         "Dawgs.C18.Props.scan_exactly_once",
@@ -18,7 +20,28 @@ THEOREMS = {
         "Dawgs.C18.Props.c18_partial",
         "Dawgs.C18.Props.c18_full_refuted",
     ],
+    # T-tie: integer widths of the per-graph tables (tools/extract/c18)
+    "Dawgs.Props.C18Widths": [
+        "Dawgs.C18.Props.no_narrow_index_types",
+        "Dawgs.C18.Props.metrics_tables_wide",
+        "Dawgs.C18.Props.ordinal_capacity_guarded",
+    ],
 }
+
+GENERATED = os.path.join(verif.LEAN, "Dawgs", "Generated", "C18_widths.lean")
+
+
+def regen(ctx):
+    """T-tie: delete and regenerate the integer-width fact table from the current source of retriever/*.go."""
+    try:
+        os.remove(GENERATED)
+    except FileNotFoundError:
+        pass
+    rc, out = verif.sh(["go", "run", ".", verif.REPO, GENERATED], cwd=os.path.join(verif.VERIF, "tools", "extract", "c18"),
+                       env=verif.GOENV, timeout=600)
+    if rc != 0 or not os.path.exists(GENERATED):
+        raise RuntimeError("c18 extractor failed: " + out[-800:])
+
 
 BIG = 2 ** 53
 _INT = re.compile(r"(?<![\w.\"])-?\d{16,}(?![\w.])")
@@ -62,6 +85,13 @@ def finding_key(suite, ops, line, msg):
     return "C18:%s:%s" % (op, cls)
 
 
+def scale_note(ctx, stats):
+    if stats.get("scale.beyond_16_bit"):
+        return "this run dumped, loaded and verified a graph with 65537 distinct node kind combinations (relationships at references 65534/65535/65536) and required Verify to reject a re-pointed relationship"
+    return ("the 16-bit reference boundary (65536 kind combinations) is covered in this tier by the width facts of Props/C18Widths only "
+            "(no_narrow_index_types, metrics_tables_wide); the scale ops ran on a 40-node proxy; the thorough tier runs the 65537-combination graph")
+
+
 def extra_coverage(ctx, stats):
     gap = unjudged = 0
     p = ctx.path("obs18_all.monout")
@@ -72,6 +102,7 @@ def extra_coverage(ctx, stats):
             elif l.startswith("ok unjudged"):
                 unjudged += 1
     return {
+        "scale_boundary": scale_note(ctx, stats),
         "verify_gap_confirmed_on_impl": gap,
         "verify_unjudged": unjudged,
         "gap_note": "verify_gap_confirmed_on_impl counts real Verify runs that accepted a loaded database which is NOT isomorphic to the "
@@ -85,9 +116,10 @@ SPEC = {
     "id": "C18",
     "title": "dump followed by load reproduces the graph",
     "level": "proof",
-    "lean_modules": ["Dawgs.Props.C18"],
+    "lean_modules": ["Dawgs.Props.C18", "Dawgs.Props.C18Widths"],
+    "regen": regen,
     "theorems_by_module": THEOREMS,
-    "gate_modules": ["Dawgs.Model.C18", "Dawgs.Spec.C18", "Dawgs.Proofs.C18", "Dawgs.Proofs.C18Metrics", "Dawgs.Proofs.C18Multi", "Dawgs.Model.C18Num", "Dawgs.Props.C18"],
+    "gate_modules": ["Dawgs.Model.C18", "Dawgs.Spec.C18", "Dawgs.Proofs.C18", "Dawgs.Proofs.C18Metrics", "Dawgs.Proofs.C18Multi", "Dawgs.Model.C18Num", "Dawgs.Props.C18", "Dawgs.Props.C18Widths"],
     "suites": [
         {"name": "c18", "model_suite": "c18", "monitor_suite": None, "keep_prefix": 2, "thorough_seeds": 2},
         {"name": "obs18", "model_suite": None, "monitor_suite": "c18mon", "keep_prefix": 2, "thorough_seeds": 2, "shrink_budget": 150},
@@ -107,7 +139,7 @@ SPEC = {
     "expected_branches": ["branch.fragment_full", "branch.fragment_partial", "branch.empty_node_phase", "branch.empty_edge_phase",
                           "branch.count_multiple_of_shard", "branch.multi_graph", "verify.mismatch", "verify.ok",
                           "gen.self_loop", "gen.parallel_edge", "mutate.rewire", "mutate.setprop", "gen.graphs_restart_ids",
-                          "gen.interrupted_dumps", "idump.ok", "idump.stuck.unexpected-file", "idump.stale_checkpoint"],
+                          "gen.interrupted_dumps", "scale.graphs", "scale.mutations", "idump.ok", "idump.stuck.unexpected-file", "idump.stale_checkpoint"],
     "trusted_base": ["encoding/json, compress/gzip, klauspost zstd, crypto/sha256 (modelled as an abstract codec with dec(enc x) = x; the JSON text "
                      "round trip of property values is checked by the tie on every run)",
                      "harness/fakedb.go: in-memory graph.Database fake interpreting the keyset criteria the retriever emits (real drivers not exercised)"],
